@@ -51,7 +51,9 @@ type env struct {
 	sigs  [][]byte // ASN.1 signatures by priv[i] over dig[i]
 	ssigs [][]byte // Schnorr signatures by spriv[i] over dig[i]
 	dst   [][]byte // shared domain separation tags (two tags that share a prefix and a backing array)
-	rs    [][3][]byte
+	// longDst: tags over 255 bytes, used by the hash-to-curve operations whose C parameter is odd
+	longDst [][]byte
+	rs      [][3][]byte
 	// operand lists that all goroutines hand to the multi-scalar routines as they are (the slices themselves are
 	// shared read-only operands, not only the objects in them); a zero scalar and an identity point sit in the
 	// middle.  shS0 / shP0 remember which objects the lists held when they were built.
@@ -114,6 +116,10 @@ func build(t fataler, r raw, sigsFrom *env) *env {
 	}
 	tags := spare([]byte("verif-c20-dst/extended"))
 	e.dst = [][]byte{tags[:13], tags} // "verif-c20-dst" and the longer tag, one backing array
+	// two tags over 255 bytes (RFC 9380 shortens those by hashing them first: one more step with state of its
+	// own), one a prefix of the other in the same backing array
+	long := spare(bytes.Repeat([]byte("verif-c20-oversize-dst/"), 20))
+	e.longDst = [][]byte{long[:300], long}
 	for i := 0; i < 3; i++ {
 		lp := lib.Pt(r.pts[i])
 		if i == 1 { // a point in a non-trivial projective representation
@@ -467,13 +473,21 @@ func (e *env) exec(o op) []byte {
 		k.Multiply(k, k).Add(k, e.scs[b3])
 		return b2(R.CompressedBytes(), S.CompressedBytes(), T.CompressedBytes(), U.CompressedBytes(), k.Bytes())
 	case "h2c.ro":
-		p, err := h2c.Secp256k1_XMD_SHA256_SSWU_RO(e.dst[j], e.dig[i])
+		tag := e.dst[j]
+		if o.C%2 == 1 {
+			tag = e.longDst[j]
+		}
+		p, err := h2c.Secp256k1_XMD_SHA256_SSWU_RO(tag, e.dig[i])
 		if err != nil {
 			return []byte("error")
 		}
 		return p.CompressedBytes()
 	case "h2c.nu":
-		p, err := h2c.Secp256k1_XMD_SHA256_SSWU_NU(e.dst[j], e.dig[i])
+		tag := e.dst[j]
+		if o.C%2 == 1 {
+			tag = e.longDst[j]
+		}
+		p, err := h2c.Secp256k1_XMD_SHA256_SSWU_NU(tag, e.dig[i])
 		if err != nil {
 			return []byte("error")
 		}
